@@ -55,6 +55,8 @@ var shHostile = []string{
 	"$(echo x>CANARY)", "a;b", "a|b", "a&b", "a&&b", "a>CANARY", "<CANARY", "*", "?", "[a-z]", "~", "~root", "#c", "a #c", "!", "!!", "{a,b}", "a b", "a  b",
 	"a\tb", "a\nb", "\n", "\r", "a\rb", "-n", "-e", "--", "-", "=", "a=b", "%s", "%", "\\n", "\\0", "\\\\", "$'\\n'", "é", "日本", "😀", "\x01", "\x1b[31m", "\x7f",
 	"a'b'c'd", "'$(: > CANARY)'", "'`: > CANARY`'", "\"$(: > CANARY)\"", "x' ; : > CANARY ; '", "x'\n: > CANARY\n'", "$IFS", "a$IFS'b", "'\"'\"'", "@", "a@b", "+", ",", ".", "/", ":", "a:b",
+	// tilde behind `:` / `=` (expanded in assignments), doubled double quotes next to a single quote
+	"/usr/local/bin:~/bin", "x:~", "opt=~/x", "it's:~", "a=~", ":~root", "~", "~/x", "it's an empty \"\" string", "'\"\"'", "\"\"'", "a'\"\"\"\"b",
 	"^", "a^b", "(", ")", "()", "<(x)", " ", " ", "a\u0085b", "]", "[", "{", "}", "a\\", "\\ ", " '", "' ", "'\n'", "$$", "$?", "$0", "$@", "$*",
 }
 
@@ -246,6 +248,10 @@ func (p c17) runAtSh(w *mon.Worker, r *rand.Rand, dir string, traced bool) mon.R
 	for _, wd := range words {
 		sc.WriteString("set -- " + wd + "\nprintf '%s\\0%s\\0' \"$#\" \"$1\"\n")
 	}
+	// ... and every word once more as the value of an assignment (tilde and other expansions differ there)
+	for _, wd := range words {
+		sc.WriteString("v=" + wd + "\nprintf 'A%s\\0' \"$v\"\n")
+	}
 	for _, shell := range []string{"/bin/dash", "/bin/bash"} {
 		sr := runShell(w, shell, dir, sc.String(), traced && shell == "/bin/dash")
 		res.Tags = append(res.Tags, "shell:"+filepath.Base(shell))
@@ -268,6 +274,17 @@ func (p c17) runAtSh(w *mon.Worker, r *rand.Rand, dir string, traced bool) mon.R
 				}
 				res.Verdict = mon.Violated
 				res.Detail = fmt.Sprintf("%s: @sh word for %q is %q; the shell saw %s word(s), first = %q (exit=%d stderr=%q)", shell, strs[i], words[i], cnt, got, sr.exit, clipStr(sr.stderr, 200))
+				return res
+			}
+		}
+		for i := range strs {
+			if k := 2*len(strs) + i; k >= len(parts) || string(parts[k]) != "A"+strs[i] {
+				got := "(missing)"
+				if k < len(parts) {
+					got = string(parts[k])
+				}
+				res.Verdict = mon.Violated
+				res.Detail = fmt.Sprintf("%s: `v=WORD` with the @sh word %q for %q leaves %q in $v", shell, words[i], strs[i], strings.TrimPrefix(got, "A"))
 				return res
 			}
 		}
